@@ -297,6 +297,11 @@ def check_input_shapes(ctx, P, rule="shape-eval", maxlen=49):
         return
     bad = []
     n = 0
+    from .. import shapeconst
+    consts = [c for c in shapeconst.usize_consts(P, fn) if c > 16]
+    big = [c for c in consts if c + 18 > 400]
+    if consts and not big:
+        maxlen = max(maxlen, max(consts) + 18)
     for L in range(16):
         for ln in range(maxlen):
             B = simd.TermBank()
@@ -335,5 +340,5 @@ def check_input_shapes(ctx, P, rule="shape-eval", maxlen=49):
     okall = not bad and n == 16 * maxlen
     ctx.check(okall, rule, "Poly1305::input", "%d (pending, length) shapes: the blocks processed are the consecutive 16-byte blocks of pending ++ input and the rest is buffered" % n,
               "Poly1305::input does not process exactly the consecutive 16-byte blocks of (pending ++ input) and buffer the rest: (pending, length, what) %s" % bad[:3], where=fn.where(), key="%s:Poly1305::input" % rule)
-    if okall:
+    if okall and not big:
         ctx.subsume("stream:input", "Poly1305::input is decided for every pending count and every length below %d by bounded shape evaluation (shape-eval)" % maxlen)
